@@ -32,7 +32,7 @@ PROPS = {
                  'T8 backends behind the VFS are arbitrary (uninterpreted results) and are reached only through capability-guarded calls'],
     ),
     'C07': dict(
-        vx_units=['vfs'], kx=[], rx=['vfs'],
+        vx_units=['vfs', 'vfsmount'], kx=[], rx=['vfs'],
         design_ref='DESIGN.md section 5, C07',
         not_covered=[
             'mount / over-mount / umount / index allocation histories (Vfs::mount*, insert_mount_locked, umount, allocate_fs_idx): ArcSwap stores and atomics on &self; routing is proved for an ARBITRARY table state satisfying Vfs::wf()',
@@ -43,7 +43,7 @@ PROPS = {
                  'T8 table invariant Vfs::wf()/mount_wf(): 256 slots, mountpoint inode numbers fit in 56 bits, mount indices are non-zero, root_entry is stored converted - established by insert_mount_locked/allocate_fs_idx, which are not covered'],
     ),
     'C14': dict(
-        vx_units=['vfs'], kx=[], rx=['vfs'],
+        vx_units=['vfs', 'vfsmount'], kx=[], rx=['vfs'],
         design_ref='DESIGN.md section 5, C14',
         not_covered=[
             'slot hygiene across mount / over-mount / umount histories (mount_with_id_mapping, insert_mount_locked, umount store through ArcSwap on &self): the clause "regardless of which mounts previously occupied its slot" is NOT decided (DESIGN.md section 7, D6)',
@@ -96,7 +96,7 @@ PROPS = {
         trusted=['T3 as C01', 'T4 abstract Writer (a split cursor only buffers)'],
     ),
     'C12': dict(
-        vx_units=['server', 'vfs', 'ptinit'], kx=[], rx=['init'],
+        vx_units=['server', 'vfs', 'ptinit', 'vfsmount'], kx=[], rx=['init'],
         design_ref='DESIGN.md section 5, C12',
         not_covered=[
             'Vfs::destroy and backends mounted AFTER init (Vfs::mount_with_id_mapping initialises them; mount path not covered)',
